@@ -355,6 +355,10 @@ MUTANTS = [
 ]
 
 MUTANTS += [
+    {"name": "generic visit looked up once per visitor TYPE in a module-level table", "rule": "DISPATCH-STATE",
+     "edits": [("d42/declaration/types/_schema.py", "        if visit_method := getattr(visitor, \"visit\", None):\n            return cast(ReturnType, visit_method(self, **kwargs))",
+                "        if type(visitor) not in _VISIT:\n            _VISIT[type(visitor)] = getattr(visitor, \"visit\", None)\n        visit_method = _VISIT[type(visitor)]\n        if visit_method:\n            return cast(ReturnType, visit_method(self, **kwargs))"),
+               ("d42/declaration/types/_schema.py", "class Schema(", "_VISIT: Any = {}\n\n\nclass Schema(")]},
     {"name": "indent forwarded only when the hook's signature names it", "rule": "DISPATCH-CHAIN",
      "edits": [(CT, "            return cast(str, represent_method(visitor, indent=indent, **kwargs))",
                 "            if \"indent\" in getattr(represent_method, \"__code__\", represent_method).co_varnames:\n                return cast(str, represent_method(visitor, indent=indent, **kwargs))\n            return cast(str, represent_method(visitor, **kwargs))")]},
